@@ -694,3 +694,33 @@ func (ts *typestate) checkAppImpliesReady(rule string) {
 		r.Fail("%s: no transition of the extracted machine returns application data (extraction stale)", rule)
 	}
 }
+
+// checkCounterNoReset: once a session may have sealed application data (counter in the post-handshake
+// range), no transition other than Send's own atomic increment writes the counter: a store would move
+// it back to 16 and the next messages would reuse counters (the peer's replay filter drops them, and
+// two plaintexts are sealed under one key and counter).
+func (ts *typestate) checkCounterNoReset(rule string) {
+	r := ts.r
+	n := 0
+	for _, t := range ts.trans {
+		if t.out.Panic || t.from.nonce != 16 {
+			continue
+		}
+		n++
+		bad := ""
+		for _, e := range t.out.Effects {
+			if strings.HasPrefix(e, "nonce=") && t.op != "Send" {
+				bad = e
+			}
+		}
+		c := fmt.Sprintf("%s --%s[%s]--> %s", t.from, t.op, labelsOf(t.out), t.to)
+		if bad == "" {
+			r.OK(rule, c, "-", "the counter is not written")
+			continue
+		}
+		r.Violation(rule, c, r.P.Pos(ts.deliver.Pos()), "a session whose outbound counter is already in the post-handshake range stores "+bad+": counters already used for sealed data are used again")
+	}
+	if n == 0 {
+		r.Fail("%s: no transition from a post-handshake counter state (extraction stale)", rule)
+	}
+}
